@@ -6,8 +6,8 @@ sys.path.insert(0, os.path.join(core.VERIF, "translator"))
 import gen_radiotap  # noqa: E402
 
 AREA = "C11"
-MODULES = ["TinsModel.Props.C11"]
-AUDIT = "Audit/C11.lean"
+MODULES = ["TinsModel.Props.C11", "TinsModel.Props.Limits.C11"]   # + the constants / limits tied to the source (translator/gen_limits.py)
+AUDIT = ["Audit/C11.lean", "Audit/LimitsC11.lean"]
 LEVEL = "proof"
 MANIFEST = dict(
     text="Lean 4 theorems over a code-shaped executable model of RadioTapParser, RadioTapWriter::write_option "
@@ -28,6 +28,10 @@ MANIFEST = dict(
     technique="Lean 4 proof (induction over field lists, padding-vector invariant for update_paddings) + "
               "model/impl correspondence + spec oracle",
     design="DESIGN.md §6 C11")
+MANIFEST["note"] += (" Constants and limits of the C++ source that the model restates (translator/gen_limits.py -> Gen/Limits.lean: "
+                     "compiled probe + preprocessed function bodies at named anchors) are tied to the model's numerals by the "
+                     "theorems of lean/TinsModel/Props/Limits/C11.lean (audit: Audit/LimitsC11.lean); tools/LIMITS-INVENTORY.md lists "
+                     "what is tied and what is not.")
 
 META = [(8, 8), (1, 1), (1, 1), (4, 2), (2, 2), (1, 1), (1, 1), (2, 2), (2, 2), (2, 2), (1, 1), (1, 1), (1, 1), (1, 1),
         (2, 2), (2, 2), (1, 1), (1, 1), (8, 4), (3, 1), (8, 4), (12, 2)]        # the radiotap standard (generator only)
@@ -190,7 +194,12 @@ def sig_of(kind, detail, case):
 
 def run(chk):
     gen_radiotap.main([])                     # field table regenerated from the source on every run
+    from translator import gen_limits
+    gen_limits.main([])          # Gen/Limits.lean: constants and limits read from the current source
+    chk.trusted.append("translator/gen_limits.py (constants / limits of the source -> Gen/Limits.lean: compiled probe + "
+                       "preprocessed function bodies at named anchors; tied to the model numerals by Props/Limits/C11.lean)")
     problems = chk.prove(MODULES, AUDIT, want_leanchecker=(chk.tier == "thorough"))
+    problems = gen_limits.name_failures(chk, problems, "C11")   # name the tie theorems that fail
     exe, err = core.build_harness("c11_radiotap")
     if exe is None:
         chk.violation("implementation does not build: " + err[-1500:], ["build-error"], nofail=True)
